@@ -271,6 +271,39 @@ fn main() {
             hostile.push(("v1", "replace".into(), String::from_utf8_lossy(&b).to_string()));
         }
         hostile.push(("v1", "intact".into(), s.clone()));
+        // structure level: hostile header fields inside an otherwise well-formed v1 encoding
+        // layout after inflation: version u16 | allowed_padding u64 | max_padding_frac f64 |
+        // allowed_blocked u64 | max_blocking_frac f64 | flag u8 | num_states u16 | states
+        if let Ok(z) = hex::decode(s) {
+            use std::io::Read;
+            let mut d = flate2::read::ZlibDecoder::new(z.as_slice());
+            let mut raw = vec![];
+            if d.read_to_end(&mut raw).is_ok() && raw.len() > 37 {
+                let enc = |b: &[u8]| {
+                    let mut e = ZlibEncoder::new(Vec::new(), Compression::best());
+                    e.write_all(b).unwrap();
+                    hex::encode(e.finish().unwrap())
+                };
+                for bad in [f64::NAN, -f64::NAN, 2.0, -0.5, f64::INFINITY, 1.0 + f64::EPSILON] {
+                    for off in [10usize, 26] {
+                        let mut q = raw.clone();
+                        q[off..off + 8].copy_from_slice(&bad.to_le_bytes());
+                        hostile.push(("v1", "v1-header".into(), enc(&q)));
+                    }
+                }
+                let mut q = raw.clone();
+                q[35] = 0;
+                q[36] = 0;
+                q.truncate(37);
+                hostile.push(("v1", "v1-header".into(), enc(&q)));
+                for _ in 0..20 {
+                    let mut q = raw.clone();
+                    let at = g.gen_range(2..q.len());
+                    q[at] = g.gen();
+                    hostile.push(("v1", "v1-structure".into(), enc(&q)));
+                }
+            }
+        }
     }
     for (i, (parser, kind, input)) in hostile.iter().enumerate() {
         if i % 200 == 0 {
